@@ -43,9 +43,10 @@ def is_dbg(node):
 
 
 class Canon:
-    def __init__(self, mode='num'):
+    def __init__(self, mode='num', keep_dbg=False):
         self.mode = mode
         self.names = {}
+        self.keep_dbg = keep_dbg
 
     def local(self, res):
         if self.mode == 'name':
@@ -90,7 +91,7 @@ class Canon:
     def block(self, b):
         stmts = []
         for s in b['stmts']:
-            if is_dbg(s) or (s['k'] == 'stmt' and is_dbg(s['e'])):
+            if not self.keep_dbg and (is_dbg(s) or (s['k'] == 'stmt' and is_dbg(s['e']))):
                 continue
             if s['k'] == 'let':
                 init = self.expr(s['init']) if s.get('init') else None
@@ -112,7 +113,7 @@ class Canon:
         if e is None:
             return None
         k = e['k']
-        if is_dbg(e):
+        if is_dbg(e) and not self.keep_dbg:
             return None
         if k == 'block':
             return self.block(e)
@@ -192,8 +193,8 @@ class Canon:
         return ('?', k)
 
 
-def canon_fn(hir, mode='num'):
-    c = Canon(mode)
+def canon_fn(hir, mode='num', keep_dbg=False):
+    c = Canon(mode, keep_dbg)
     params = tuple(c.pat(p) for p in hir['params'])
     body = c.expr(hir['body'])
     return (params, body)
